@@ -267,9 +267,15 @@ func (c *EvalCtx) ident(name string) Value {
 			return v
 		}
 	}
-	if m := c.e.localAlias[c.fnKey]; m != nil && !c.noVars && c.st != nil {
+	if m := c.e.localAlias[c.fnKey]; m != nil && c.st != nil {
 		if alt, ok := m[name]; ok {
-			if v, ok := c.st.vars[alt]; ok {
+			if v, ok := c.bind[alt]; ok {
+				if va, isAddr := v.(varAddr); isAddr {
+					return c.e.loadPtr(c.st, va.P)
+				}
+				return v
+			}
+			if v, ok := c.st.vars[alt]; ok && !c.noVars {
 				if va, isAddr := v.(varAddr); isAddr {
 					return c.e.loadPtr(c.st, va.P)
 				}
@@ -1517,6 +1523,7 @@ func (c *EvalCtx) assume(x Expr) {
 		}()
 
 		if *s.nerr > 0 {
+			c.e.assumeSkips++
 			c.e.noteAssumption("clause not assumed because it cannot be evaluated here: " + exprStr(x) + " (" + *s.lastErr + ")")
 		}
 		return
